@@ -27,7 +27,7 @@ MANIFEST = {
              'iteration; index bookkeeping (disp_auth_idx_entry etc.) is taken as the code computes it.'),
 }
 EXPLANATION = 'Gate formulas of TrainDisp::advance as named-sub-term specifications of the SVN terms of one loop iteration.'
-RULES = ['C04-0.start', 'C04-1.direction', 'C04-2.lockout', 'C04-3.exit', 'C04-4.entry', 'C04-5.offset', 'C04-6.clear', 'C04-7.occupancy']
+RULES = ['C04-0.start', 'C04-1.direction', 'C04-2.lockout', 'C04-3.exit', 'C04-4.entry', 'C04-5.offset', 'C04-6.clear', 'C04-7.occupancy', 'C04-8.index']
 ASSUMPTIONS = ['index bookkeeping of dispatch nodes and authorities is as computed by the code (not decided)']
 
 FID = 'TrainDisp::advance'
@@ -258,6 +258,82 @@ def run(ctx):
     occupancy(ctx, b, an)
 
 
+def _node_indices(t, tail):
+    """index terms X of every read  disp_path[X].<tail...>  occurring in t (both term shapes)"""
+    out = []
+    n = len(tail)
+    for x in walk(t):
+        if x[0] == 'pre':
+            p_ = x[1]
+            for i, c in enumerate(p_):
+                if c == ('f', 'disp_path') and i + 1 + n < len(p_) + 0 and p_[i + 1][0] == 'idx' and tuple(p_[i + 2:i + 2 + n]) == tuple(('f', f) for f in tail):
+                    out.append(_strip_idx(p_[i + 1][1]))
+        if x[0] == 'proj':
+            # proj(proj(elem(V, X), f1), f2) ...
+            chain = []
+            y = x
+            while y[0] == 'proj' and y[2][0] == 'f':
+                chain.append(y[2][1]); y = y[1]
+            chain.reverse()
+            if y[0] == 'elem' and chain[:n] == list(tail) and 'disp_path' in repr(y[1])[:400]:
+                out.append(_strip_idx(y[2]))
+    res = []
+    for o in out:
+        if o not in res:
+            res.append(o)
+    return res
+
+
+def _strip_idx(t):
+    while t[0] == 'uf' and t[1] in ('range', 'unwrap', '::try_into', '::from') and len(t) == 3:
+        t = t[2]
+    return t
+
+
+def index_provenance(ctx, fns):
+    """C04-8.index: an authority is addressed as link_disp_auths[link of node X][entry index recorded on node X] (or relative to
+    the end of that same list).  Mixing the link of one dispatch node with the entry index of another lands on another
+    train's authority or past the end of the list."""
+    R = 'C04-8.index'
+    n = 0
+    for b, an in fns:
+        if an.exit_state is None:
+            continue
+        seen = set()
+        for bb, path, val, span in an.stores_log:
+            if path[0] != ('obj', 2) or len(path) < 4 or path[1][0] != 'idx' or path[2][0] != 'idx' or path[-1][0] != 'f':
+                continue
+            L, I = path[1][1], path[2][1]
+            nl = _node_indices(L, ('link_event', 'link_idx'))
+            # the position: idx(OPT) [± 1] with OPT an Option-typed entry index — only the top-level shape counts (the list
+            # expression inside a len(..) may legitimately mention other nodes)
+            I0 = I
+            if I0[0] in ('sub', 'add') and I0[2][0] == 'num':
+                I0 = I0[1]
+            opt = None
+            if I0[0] == 'uf' and I0[1] == 'range':
+                I0 = I0[2]
+            if I0[0] == 'uf' and I0[1] == 'unwrap_or' and I0[2][0] == 'uf' and I0[2][1] == 'opt_map':
+                opt = I0[2][2]
+            ni = _node_indices(opt, ('disp_auth_idx_entry',)) if opt is not None and (opt[0] in ('pre', 'proj')) else []
+            key = '%s|%s' % (b.fid, path[-1][1])
+            k2 = key
+            c_ = 1
+            while k2 in seen:
+                c_ += 1; k2 = '%s #%d' % (key, c_)
+            seen.add(k2)
+            n += 1
+            if not ni:
+                # relative to the end of the same list (last / len - 1 / freshly pushed)
+                ok = any(x[0] == 'len' for x in walk(I)) or I[0] == 'num'
+                ctx.check(ok, R, k2, 'the authority is addressed relative to the end of its own list', 'index %s' % show(I, an.names)[:120], ctx.where(b, span))
+                continue
+            ok = len(nl) == 1 and len(ni) == 1 and nl[0] == ni[0]
+            ctx.check(ok, R, k2, 'the list is that of the node\'s link and the position is the entry index recorded on the same node',
+                      'link taken from node %s, entry index from node %s' % ([show(x, an.names)[:60] for x in nl], [show(x, an.names)[:60] for x in ni]), ctx.where(b, span))
+    ctx.floor('authority field stores with index provenance checked', n, 12)
+
+
 def _block_of(an, path):
     for bb, p, v, s in an.stores_log:
         if p == path:
@@ -336,6 +412,7 @@ def occupancy(ctx, b, an):
     missing = sorted(adv - rew - ({'arrive_entry', 'train_idx'} if pops else set()))
     ctx.check(not missing and bool(pops), R, 'TrainDisp::rewind|fields', 'rewind pops the authority advance pushed and resets every authority field advance sets on other authorities (%s)' % sorted(adv),
               'fields set by advance but not reset by rewind: %s; pops: %d' % (missing, len(pops)), ctx.where(rb))
+    index_provenance(ctx, [(b, an)] + ([(ub, uan)] if ub is not None else []) + [(rb, ran)])
     for fld in sorted(adv & rew):
         vals = {show(val)[:20] for bb, path, val, span in ran.stores_log if path[0] == ('obj', 2) and path[-1] == ('f', fld)}
         ctx.check(vals <= {'INF', '0'}, R, 'TrainDisp::rewind|' + fld, 'rewind resets %s to its "not yet" value' % fld, 'reset values %s' % sorted(vals), ctx.where(rb))
